@@ -101,6 +101,8 @@ func buildCmpGrid() {
 	num("di16", "-2")
 	cmpData["du64"] = uint64(9007199254740993)
 	num("du64", "9007199254740993")
+	cmpData["dup"] = uintptr(7)
+	num("dup", "7")
 	cmpData["dbig"] = int64(9007199254740993)
 	num("dbig", "9007199254740993")
 	num("9007199254740993", "9007199254740993")
